@@ -10,6 +10,7 @@
 //! `P <width> <hex pattern text>`: the same for a pattern, wrapped as `let <pattern> = x;`.
 //! `M <width> <hex module text>`  (reparse oracle on whole modules)
 //!     answer: `perr` | `ok <n toplevels>` | `rerr:<hex message>` | `diff:<hex T0>:<hex T1>` | `panic:<hex>`
+//! `F <hex module text>`: hex of the in-process formatting at width 100 (reference for the CLI leg).
 //! `D <hex module text>`: dump of the module tree (debugging / replay).
 use samlang_ast::source::*;
 use samlang_errors::ErrorSet;
@@ -484,6 +485,14 @@ fn main() {
       "E" | "S" if t.len() == 3 => op_expr(t[1].parse().unwrap_or(100), &unhex_str(t[2])),
       "P" if t.len() == 3 => op_pattern(t[1].parse().unwrap_or(100), &unhex_str(t[2])),
       "M" if t.len() == 3 => op_module(t[1].parse().unwrap_or(100), &unhex_str(t[2])),
+      "F" if t.len() == 2 => {
+        // what `samlang format` must write: pretty_print_source_module at width 100 (or `perr`)
+        let mut heap = Heap::new();
+        match parse(&mut heap, &unhex_str(t[1])) {
+          Ok(m) => hex(samlang_printer::pretty_print_source_module(&heap, 100, &m).as_bytes()),
+          Err(_) => "perr".to_string(),
+        }
+      }
       "D" if t.len() == 2 => {
         let mut heap = Heap::new();
         match parse(&mut heap, &unhex_str(t[1])) {
